@@ -106,7 +106,10 @@ func encodingsOf(s crypto.Signer, ca *gen.CA) []encoding {
 var c19OtherPub, c19OtherCert string
 
 func decorate(r int, p string) (string, string) {
-	switch r % 7 {
+	switch r % 8 {
+	case 7:
+		// explanatory text in front of the block, as `openssl pkcs12 -nodes` / `openssl x509 -text` write it
+		return "leading explanatory text", "Bag Attributes\n    friendlyName: signing key\n    localKeyID: 54 69 6D 65 20 31\nsubject=CN = somebody\n# exported for in-toto\n\n" + p
 	case 5:
 		return "trailing PEM block with another public key", p + c19OtherPub
 	case 6:
@@ -227,7 +230,7 @@ func runC19(c *core.Ctx) {
 			var privKey, pubKey *intoto.Key
 			for ei, enc := range encs {
 				for loader := 0; loader < 4; loader++ {
-					for deco := 0; deco < 7; deco++ {
+					for deco := 0; deco < 8; deco++ {
 						if c.Quick() && (loader+deco+ei)%3 != 0 && deco != 0 {
 							continue
 						}
@@ -611,7 +614,7 @@ func init() {
 	core.Register(&core.Property{
 		ID:    "C19",
 		Level: "exploration",
-		Rule: "freshly generated keys per run (quick: 2 RSA-2048, ECDSA P-224/256x2/384/521, 3 Ed25519; thorough: more, plus RSA-3072) x every PEM encoding each supports (PKCS#8, PKCS#1, SEC1, PKIX, self-signed and CA-issued certificate) x 4 loaders (the reader-based ones fed whole, byte by byte, in halves and in 100-byte pieces) x 7 decorations (plain, surrounding whitespace, CRLF, trailing garbage PEM block, trailing text, trailing PEM block with another valid public key / another key's certificate: the first block is the key): type, default scheme, public-half string, key id (recomputed independently as SHA-256 of the reference canonical description), presence of private half / certificate, equal ids across the forms of one pair and different ids for different keys; sign with the private-loaded key, verify with public/certificate-loaded keys and with crypto/*; public-only keys must not sign; explicit scheme and hash lists, including the absent and the empty list (matching => reflected in id; scheme of another key type => error); re-use of one Key object for two loads must equal a fresh load; before every load an earlier default-loaded key object is modified in place by its owner (later loads must not notice); SVIDDetails.InTotoKey on generated SVID-like pairs (helper built inside the repository module through a build overlay); negatives (empty, text, truncated DER/base64, random DER under 5 labels, encrypted PKCS#8 label, CSR, DSA-like, EC PARAMETERS block without a key, DH/DSA PARAMETERS blocks, integer sequences, a signed revocation list, binary) through all loaders. " +
+		Rule: "freshly generated keys per run (quick: 2 RSA-2048, ECDSA P-224/256x2/384/521, 3 Ed25519; thorough: more, plus RSA-3072) x every PEM encoding each supports (PKCS#8, PKCS#1, SEC1, PKIX, self-signed and CA-issued certificate) x 4 loaders (the reader-based ones fed whole, byte by byte, in halves and in 100-byte pieces) x 8 decorations (plain, surrounding whitespace, leading explanatory text as openssl writes it, CRLF, trailing garbage PEM block, trailing text, trailing PEM block with another valid public key / another key's certificate: the first block is the key): type, default scheme, public-half string, key id (recomputed independently as SHA-256 of the reference canonical description), presence of private half / certificate, equal ids across the forms of one pair and different ids for different keys; sign with the private-loaded key, verify with public/certificate-loaded keys and with crypto/*; public-only keys must not sign; explicit scheme and hash lists, including the absent and the empty list (matching => reflected in id; scheme of another key type => error); re-use of one Key object for two loads must equal a fresh load; before every load an earlier default-loaded key object is modified in place by its owner (later loads must not notice); SVIDDetails.InTotoKey on generated SVID-like pairs (helper built inside the repository module through a build overlay); negatives (empty, text, truncated DER/base64, random DER under 5 labels, encrypted PKCS#8 label, CSR, DSA-like, EC PARAMETERS block without a key, DH/DSA PARAMETERS blocks, integer sequences, a signed revocation list, binary) through all loaders. " +
 			"non-trivial = a supported encoding parsed or a distinct negative class; distinct = (key kind, encoding, loader, decoration) etc.",
 		Assumptions: []string{"keys come from crypto/rand, so they differ per run; every input of a violation is saved in the replay file", "PEM input with trailing data after the first block may be accepted or refused (not judged), but never yields a wrong key", "PEM labels that contradict the DER content are not judged"},
 		Workers:     func(string) int { return 16 },
